@@ -34,8 +34,18 @@ func Run(s *schema.CallableSchema) {
 		ctx, cancel := context.WithCancel(context.Background())
 		defer cancel()
 
-		if err := atp.RunATPServer(ctx, os.Stdin, os.Stdout, s); err != nil {
-			panic(err)
+		// What the server could not tell the engine (or had to give up on) goes to stderr. Only an error that ended
+		// the session is a failure of the plugin process; a refused signal or a failed step is not.
+		serverFatal := false
+		for _, serverError := range atp.RunATPServer(ctx, os.Stdin, os.Stdout, s) {
+			_, _ = fmt.Fprintln(os.Stderr, serverError.String())
+			if serverError.ServerFatal {
+				serverFatal = true
+			}
+		}
+		if serverFatal {
+			cancel()
+			os.Exit(1)
 		}
 	case "--schema":
 		serializedSchema, err := s.SelfSerialize()
